@@ -10,12 +10,20 @@ Open Scope N_scope.
 Theorem C16_table : cfg_ok gen_cfg = true.
 Proof. exact cfg_ok_gen. Qed.
 
-(* outside a global transaction: for ALL programs (operations with their journals) without a global
-   transaction, through either proxy and from any proxy state, the proxy produces exactly the journals
-   the bare driver produces ... *)
-Theorem C16_outside : forall (px : proxy) (l : list (op * list ev)) (s : txs),
-  no_gtx l = true -> run gen_cfg px s l = bare_run l.
+(* outside a global transaction: for ALL programs (operations with their journals) in which no operation's
+   context carries an xid ANYWHERE, through either proxy, the proxy produces exactly the journals the bare
+   driver produces ... *)
+Theorem C16_outside : forall (px : proxy) (l : list (op * list ev)),
+  no_gtx l = true -> run gen_cfg px [] l = bare_run l.
 Proof. exact outside_same. Qed.
+
+(* ... and after a global transaction has ended the proxy is again the identity: for ALL accepted prefixes
+   `pre` (any mix of global transactions, local transactions, mixed contexts) that leave no branch
+   transaction open, and ALL continuations without an xid context, on the same connections *)
+Theorem C16_after : forall (px : proxy) (pre l : list (op * list ev)) (s' : txs),
+  run_state gen_cfg px [] pre = Some s' -> all_local s' = true -> no_gtx l = true ->
+  run gen_cfg px [] (pre ++ l) = bare_run l.
+Proof. exact after_same. Qed.
 
 (* ... and such a journal holds no coordinator message, image query, savepoint or undo-log statement *)
 Theorem C16_outside_quiet : forall (l : list (op * list ev)),
@@ -51,7 +59,7 @@ Theorem C16_inside : forall (B call reply : Type) (bstep : B -> call -> B * repl
 Proof. exact transparent_results. Qed.
 
 (* ---- non-vacuity *)
-Definition upd_op := {| o_k := OStmt "SQLTypeUpdate" false; o_conn := 0; o_gtx := true; o_ok := true |}.
+Definition upd_op := {| o_k := OStmt "SQLTypeUpdate" false; o_conn := 0; o_gtx := true; o_ok := true; o_vp := false |}.
 Definition upd_obs : list ev :=
   [(tBegin, true, false); (tImg, true, true); (tExec, true, false); (tImg, true, true); (tReg, true, false);
    (tUndoP, true, false); (tUndo, true, false); (tCommit, true, false); (tReport, true, false)].
@@ -61,11 +69,31 @@ Example C16_extra_nonvacuous :
   erased gen_cfg [] [(upd_op, upd_obs)] = [(upd_op, [(tExec, true, false)])].
 Proof. vm_compute. split; reflexivity. Qed.
 
+Definition out_op := {| o_k := OStmt "SQLTypeUpdate" false; o_conn := 0; o_gtx := false; o_ok := true; o_vp := false |}.
+
 Example C16_outside_nonvacuous :
-  let o := {| o_k := OStmt "SQLTypeUpdate" false; o_conn := 0; o_gtx := false; o_ok := true |} in
-  no_gtx [(o, [(tExec, true, false)])] = true /\ run gen_cfg XA [] [(o, [(tExec, true, false)])] = true /\
-  run gen_cfg AT [] [(o, upd_obs)] = false.
+  no_gtx [(out_op, [(tExec, true, false)])] = true /\ run gen_cfg XA [] [(out_op, [(tExec, true, false)])] = true /\
+  run gen_cfg AT [] [(out_op, upd_obs)] = false.
 Proof. vm_compute. repeat split; reflexivity. Qed.
+
+(* a bracketed UPDATE of a global transaction, then the same connection outside: accepted, the state is local *)
+Example C16_after_nonvacuous :
+  run_state gen_cfg AT [] [(upd_op, upd_obs)] = Some [] /\ all_local [] = true /\
+  run gen_cfg AT [] ([(upd_op, upd_obs)] ++ [(out_op, [(tExec, true, false)])]) = true.
+Proof. vm_compute. repeat split; reflexivity. Qed.
+
+(* mixed contexts: a transaction begun WITHOUT an xid stays local although a statement runs with one *)
+Example C16_mixed_nonvacuous :
+  let b := {| o_k := OBegin; o_conn := 1; o_gtx := false; o_ok := true; o_vp := false |} in
+  let u := {| o_k := OStmt "SQLTypeUpdate" false; o_conn := 1; o_gtx := true; o_ok := true; o_vp := false |} in
+  let c := {| o_k := OCommit; o_conn := 1; o_gtx := true; o_ok := true; o_vp := false |} in
+  run gen_cfg AT [] [(b, [(tBegin, true, false)]); (u, [(tImg, true, true); (tExec, true, false); (tImg, true, true)]);
+                      (c, [(tCommit, true, false)])] = true /\
+  run gen_cfg AT [] [(b, [(tBegin, true, false)]);
+                      (u, [(tBegin, true, false); (tImg, true, true); (tExec, true, false); (tImg, true, true); (tReg, true, false);
+                           (tUndoP, true, false); (tUndo, true, false); (tCommit, true, false); (tReport, true, false)]);
+                      (c, [(tCommit, true, false)])] = false.
+Proof. vm_compute. split; reflexivity. Qed.
 
 Example C16_inside_nonvacuous :
   (forall a b c, toy_sim a b -> toy_sim b c -> toy_sim a c) /\
